@@ -107,7 +107,11 @@ func (p *patternReader) Read(b []byte) (int, error) {
 }
 
 func randomSizes(rng *Rng) ([]int, string) {
-	switch rng.Intn(5) {
+	switch rng.Intn(6) {
+	case 5:
+		// the very first Read delivers nothing, without an error (allowed by io.Reader; seeded changes C27B3 /
+		// C28B3 sniffed the format with a single Read and ignored the count)
+		return []int{0, 1 + rng.Intn(5), 0, 1 + rng.Intn(40)}, "empty-first"
 	case 0:
 		return []int{1}, "one-byte"
 	case 1:
